@@ -220,3 +220,8 @@ Fixpoint spec_run {T} eqb (s : sorted T) (bag : list T) (ops : list (op T)) : op
       | Some bag' => spec_run eqb (fst (step_total eqb s o)) bag' ops'
       end
   end.
+
+(* the objects the property speaks about: built by NewSorted from any slice,
+   then subjected to any sequence of operations *)
+Definition reachable {T} zero eqb sort_Stable (less : T -> T -> bool) (s : sorted T) : Prop :=
+  exists init ops s0, NewSorted zero sort_Stable init less = Ok s0 /\ s = fst (run eqb s0 ops).
